@@ -271,8 +271,20 @@ func playWriter(env *padEnv, ev *evw) {
 	}
 }
 
+// a destination that, like bufio.Writer or os.File, offers more than Write: helpers that look for such methods must not let
+// their results replace the verdict on the padding
+type richOut struct{ *recOut }
+
+func (richOut) Flush() error { return nil }
+func (richOut) Sync() error  { return nil }
+func (richOut) Close() error { return nil }
+
 func playHelper(env *padEnv, ev *evw) {
-	out := &recOut{ev: ev, log: true}
+	plain := &recOut{ev: ev, log: true}
+	var out io.Writer = plain
+	if (env.N+len(env.Bad))%2 == 1 {
+		out = richOut{plain}
+	}
 	defer func() {
 		if p := recover(); p != nil {
 			ev.emit(map[string]interface{}{"ev": "done", "err": "panic", "panic": fmt.Sprint(p)})
